@@ -1,0 +1,115 @@
+//go:build verif
+
+// Contracts for the deductive checker in /verif (read only with -tags verif).
+// Block cipher and padding are abstract: ENC/DEC are uninterpreted functions of the key
+// identity and a block, PADARR/PADLEN of the padding identity and the message.
+
+package cbcmac
+
+//@ func (*cbcmac).Size property C19
+//@   ensures result == c.size
+//@   modifies nothing
+
+//@ func (*cbcmac).MAC property C19
+//@   config bs in 8,16
+//@   requires BS(id(c.b)) == bs && PADBS(id(c.pad)) == bs && 1 <= c.size && c.size <= bs
+//@   requires c.b != nil && c.pad != nil
+//@   let K := id(c.b)
+//@   let M := PADARR(id(c.pad), arr(src), offof(src), len(src))
+//@   let N := PADLEN(id(c.pad), len(src)) / bs
+//@   ensures len(result) == c.size
+//@   ensures forall j :: 0 <= j && j < c.size ==> result[j] == CBC(K, ZEROARR(), M, 0, bs, N)[j]
+//@   modifies src[0..cap(src)]
+//@   loop 1 let P := src
+//@   loop 1 invariant sameobj(src, P) && offof(src) + len(src) == offof(P) + len(P) && offof(P) <= offof(src) && (offof(src) - offof(P)) % bs == 0
+//@   loop 1 invariant forall j :: 0 <= j && j < bs ==> tag[j] == CBC(K, ZEROARR(), M, 0, bs, (offof(src) - offof(P)) / bs)[j]
+//@   loop 1 invariant forall j :: 0 <= j && j < len(P) ==> P[j] == M[j]
+//@   loop 1 decreases len(src)
+
+//@ func (*emac).Size property C19
+//@   ensures result == e.size
+//@   modifies nothing
+
+//@ func (*emac).MAC property C19
+//@   config bs in 8,16
+//@   requires BS(id(e.b1)) == bs && BS(id(e.b2)) == bs && PADBS(id(e.pad)) == bs && 1 <= e.size && e.size <= bs
+//@   requires e.b1 != nil && e.b2 != nil && e.pad != nil
+//@   let K1 := id(e.b1)
+//@   let K2 := id(e.b2)
+//@   let M := PADARR(id(e.pad), arr(src), offof(src), len(src))
+//@   let N := PADLEN(id(e.pad), len(src)) / bs
+//@   ensures len(result) == e.size
+//@   ensures forall j :: 0 <= j && j < e.size ==> result[j] == ENC(K2, BLK(CBC(K1, ZEROARR(), M, 0, bs, N), 0, bs))[j]
+//@   modifies src[0..cap(src)]
+//@   loop 1 let P := src
+//@   loop 1 invariant sameobj(src, P) && offof(src) + len(src) == offof(P) + len(P) && offof(P) <= offof(src) && (offof(src) - offof(P)) % bs == 0
+//@   loop 1 invariant forall j :: 0 <= j && j < bs ==> tag[j] == CBC(K1, ZEROARR(), M, 0, bs, (offof(src) - offof(P)) / bs)[j]
+//@   loop 1 invariant forall j :: 0 <= j && j < len(P) ==> P[j] == M[j]
+//@   loop 1 decreases len(src)
+
+//@ func (*ansiRetailMAC).Size property C19
+//@   ensures result == e.size
+//@   modifies nothing
+
+//@ func (*ansiRetailMAC).MAC property C19
+//@   config bs in 8,16
+//@   requires BS(id(e.b1)) == bs && BS(id(e.b2)) == bs && PADBS(id(e.pad)) == bs && 1 <= e.size && e.size <= bs
+//@   requires e.b1 != nil && e.b2 != nil && e.pad != nil
+//@   let K1 := id(e.b1)
+//@   let K2 := id(e.b2)
+//@   let M := PADARR(id(e.pad), arr(src), offof(src), len(src))
+//@   let N := PADLEN(id(e.pad), len(src)) / bs
+//@   ensures len(result) == e.size
+//@   ensures forall j :: 0 <= j && j < e.size ==> result[j] == ENC(K1, BLK(DEC(K2, BLK(CBC(K1, ZEROARR(), M, 0, bs, N), 0, bs)), 0, bs))[j]
+//@   modifies src[0..cap(src)]
+//@   loop 1 let P := src
+//@   loop 1 invariant sameobj(src, P) && offof(src) + len(src) == offof(P) + len(P) && offof(P) <= offof(src) && (offof(src) - offof(P)) % bs == 0
+//@   loop 1 invariant forall j :: 0 <= j && j < bs ==> tag[j] == CBC(K1, ZEROARR(), M, 0, bs, (offof(src) - offof(P)) / bs)[j]
+//@   loop 1 invariant forall j :: 0 <= j && j < len(P) ==> P[j] == M[j]
+//@   loop 1 decreases len(src)
+
+//@ func (*macDES).Size property C19
+//@   ensures result == m.size
+//@   modifies nothing
+
+//@ func (*macDES).MAC property C19
+//@   config bs in 8,16
+//@   requires BS(id(m.b1)) == bs && BS(id(m.b2)) == bs && BS(id(m.b3)) == bs && PADBS(id(m.pad)) == bs && 1 <= m.size && m.size <= bs
+//@   requires m.b1 != nil && m.b2 != nil && m.b3 != nil && m.pad != nil
+//@   let K1 := id(m.b1)
+//@   let K2 := id(m.b2)
+//@   let K3 := id(m.b3)
+//@   let M := PADARR(id(m.pad), arr(src), offof(src), len(src))
+//@   let N := PADLEN(id(m.pad), len(src)) / bs
+//@   let H1 := ENC(K3, BLK(ENC(K1, BLK(M, 0, bs)), 0, bs))
+//@   ensures len(result) == m.size
+//@   ensures forall j :: 0 <= j && j < m.size ==> result[j] == ENC(K2, BLK(CBC(K1, H1, M, bs, bs, N - 1), 0, bs))[j]
+//@   modifies src[0..cap(src)]
+//@   loop 1 let P := src
+//@   loop 1 invariant sameobj(src, P) && offof(src) + len(src) == offof(P) + len(P) && offof(P) <= offof(src) && (offof(src) - offof(P)) % bs == 0
+//@   loop 1 invariant forall j :: 0 <= j && j < bs ==> tag[j] == CBC(K1, H1, M, bs, bs, (offof(src) - offof(P)) / bs)[j]
+//@   loop 1 invariant forall j :: 0 <= j && j < len(P) ==> P[j] == M[j + bs]
+//@   loop 1 decreases len(src)
+
+//@ func (*lmac).Size property C19
+//@   requires l.b1 != nil
+//@   ensures result == l.size
+//@   modifies nothing
+
+//@ func (*lmac).MAC property C19
+//@   config bs in 8,16
+//@   requires BS(id(l.b1)) == bs && BS(id(l.b2)) == bs && PADBS(id(l.pad)) == bs && 1 <= l.size && l.size <= bs
+//@   requires l.b1 != nil && l.b2 != nil && l.pad != nil
+//@   let K1 := id(l.b1)
+//@   let K2 := id(l.b2)
+//@   let M := PADARR(id(l.pad), arr(src), offof(src), len(src))
+//@   let N := PADLEN(id(l.pad), len(src)) / bs
+//@   ensures len(result) == l.size
+//@   ensures forall j :: 0 <= j && j < l.size ==> result[j] == ENC(K2, XW(CBC(K1, ZEROARR(), M, 0, bs, N - 1), M, bs * (N - 1), bs))[j]
+//@   modifies src[0..cap(src)]
+//@   loop 1 let P := src
+//@   loop 1 invariant sameobj(src, P) && offof(src) + len(src) == offof(P) + len(P) && offof(P) <= offof(src) && (offof(src) - offof(P)) % bs == 0 && len(src) >= bs
+//@   loop 1 invariant forall j :: 0 <= j && j < bs ==> tag[j] == CBC(K1, ZEROARR(), M, 0, bs, (offof(src) - offof(P)) / bs)[j]
+//@   loop 1 invariant forall j :: 0 <= j && j < len(P) ==> P[j] == M[j]
+//@   loop 1 decreases len(src)
+//@   assert before call XORBytes#2: len(src) == bs && offof(src) - offof(P) == bs * (N - 1) && (offof(src) - offof(P)) / bs == N - 1
